@@ -647,12 +647,14 @@ DoTiny ==
 DoMalformed ==
     /\ Reading("ready") /\ ~skip /\ Head1.t = "Bad"
     /\ Consume
-    /\ \/ emit' = <<CloseEv>> /\ Closed /\ UNCHANGED skip
-       \/ emit' = <<Rv(ErrAny), CloseEv>> /\ Closed /\ UNCHANGED skip
-       \/ emit' = <<Rv(ErrAny), Rv(MsgReady), CloseEv>> /\ Closed /\ UNCHANGED skip
-       \/ emit' = <<Rv(ErrAny), Rv(MsgReady)>> /\ UNCHANGED <<skip, phase>>
-       \/ emit' = <<Rv(ErrAny)>> /\ skip' = TRUE /\ UNCHANGED phase
-       \/ \* a COPY message outside COPY mode is ignored whatever its body
+    /\ \/ Head1.ty \notin {"d", "c", "f"} /\
+          \/ emit' = <<CloseEv>> /\ Closed /\ UNCHANGED skip
+          \/ emit' = <<Rv(ErrAny), CloseEv>> /\ Closed /\ UNCHANGED skip
+          \/ emit' = <<Rv(ErrAny), Rv(MsgReady), CloseEv>> /\ Closed /\ UNCHANGED skip
+          \/ emit' = <<Rv(ErrAny), Rv(MsgReady)>> /\ UNCHANGED <<skip, phase>>
+          \/ emit' = <<Rv(ErrAny)>> /\ skip' = TRUE /\ UNCHANGED phase
+       \/ \* a COPY message outside COPY mode is ignored whatever its body (C13): nothing else
+          \* is allowed for it (tightened after the ninth round, sa9-C13-1)
           Head1.ty \in {"d", "c", "f"} /\ emit' = <<>> /\ UNCHANGED <<skip, phase>>
     /\ UNCHANGED <<cfg, ssl, mwi, cparams, eof, faulted, stmts, portals, hq, h>>
 
